@@ -50,7 +50,7 @@ SCHEMAS = {
     "verif-oc": ([S + "/verif-oc.yang"], [S]),
     "verif-clash": ([S + "/verif-clash.yang"], [S]),
     "verif-action": ([S + "/verif-action.yang"], [S]),
-    "verif-multi": ([S + "/multi/vm-base.yang", S + "/multi/vm-aug-a.yang", S + "/multi/vm-aug-b.yang", S + "/multi/vm-aug-c.yang"], [S + "/multi"]),
+    "verif-multi": ([S + "/multi/vm-base.yang", S + "/multi/vm-aug-a.yang", S + "/multi/vm-aug-b.yang", S + "/multi/vm-aug-c.yang", S + "/multi/vm-types.yang", S + "/multi/vm-Types.yang"], [S + "/multi"]),
     "cts": (["integration_tests/schemaops/yang/ctestschema.yang", "integration_tests/schemaops/yang/ctestschema-rootmod.yang"], ["integration_tests/schemaops/yang"]),
     "uts": (["integration_tests/schemaops/yang/utestschema.yang", "integration_tests/schemaops/yang/refschema.yang",
              "integration_tests/schemaops/yang/ctestschema.yang", "integration_tests/schemaops/yang/ctestschema-rootmod.yang"], ["integration_tests/schemaops/yang"]),
@@ -493,6 +493,16 @@ def run_combo(args):
         if rc != 0 or not ref:
             res["skipped"] = "reference generation failed (schema/flag combination not supported): " + err.strip().splitlines()[-1][:200] if err.strip() else "no output"
             return res
+        # the canonical plan once more: identical plan, identical bytes
+        ref2dir = os.path.join(workdir, "ref2")
+        rcb, refb, _, errb = generate(info, combo, "canon", None, ref2dir, workdir)
+        res["runs"] += 1
+        res["fired"]["identical-plan-repeated"] = 1
+        if rcb == 0 and refb != ref:
+            f, detail = first_diff(refdir, ref2dir, ref, refb)
+            res["violations"].append({"combo": list(combo), "map": "canon", "sites": None, "rc": 0, "file": f, "identical_plan": True,
+                                      "detail": "two executions of the canonical plan ended normally with different output; " + detail})
+            return res
         multi = sorted(s for s, n in (st.get("multi") or {}).items() if n > 0)
         res["sites_multi"] = multi
         res["sites_visited"] = sorted((st.get("visits") or {}).keys())
@@ -522,11 +532,20 @@ def run_combo(args):
                 # executed once more before anything is concluded. A deviation that does not come back was caused by the
                 # environment of that one process (killed, out of memory, a full disk under a loaded machine), not by the
                 # generator; it is recorded in the evidence and not reported.
-                rc2, got2, _, err2 = generate(info, combo, mode, sites, out, workdir)
+                out2 = os.path.join(workdir, "out2")
+                rc2, got2, _, err2 = generate(info, combo, mode, sites, out2, workdir)
                 res["runs"] += 1
                 if rc2 == 0 and got2 == ref:
+                    if rc == 0 and got:
+                        # both executions of one plan ended normally and produced different bytes: that is the property
+                        # itself failing (something the map-order seam does not control - goroutines, addresses, time - reached
+                        # the output), whether or not it can be made to happen again at will
+                        f, detail = first_diff(out2, out, got2, got)
+                        res["violations"].append({"combo": list(combo), "map": mode, "sites": sites, "rc": 0, "file": f, "identical_plan": True,
+                                                  "detail": "two executions of the same plan (map order %s, sites %s) ended normally with different output; %s" % (mode, sites, detail)})
+                        break
                     res.setdefault("unreproducible", []).append({"combo": list(combo), "map": mode, "sites": sites, "rc": rc, "stderr": err[-300:]})
-                    log("C25: a deviating generation did not repeat when re-executed with the same plan (rc=%s, %s %s %s): %s" % (rc, combo, mode, sites, err[-200:].strip()))
+                    log("C25: a failing generation did not repeat when re-executed with the same plan (rc=%s, %s %s %s): %s" % (rc, combo, mode, sites, err[-200:].strip()))
                     continue
                 rc, got, err = rc2, got2, err2
             f, detail = first_diff(refdir, out, ref, got)
@@ -589,6 +608,10 @@ def check(pid, tier, seed):
             samples.append({"combo": r["combo"], "files_compared": r.get("files"), "sites_with_2plus_keys": len(r["sites_multi"]), "runs": r["runs"], "orders": r["orders"]})
     gen_pkgs = ("ygen/", "gogen/", "protogen/", "ypathgen/", "genutil/", "generator/", "proto_generator/", "goyang/", "internal/igenutil/")
     gen_sites = [s for s in allsites if s.startswith(gen_pkgs)]
+    try:
+        unmodelled = [u for u in (json.load(open(os.path.join(info["dir"], "sites-ygot.json"))).get("unmodelled_sync") or []) if u.startswith(gen_pkgs + ("util/", "ygot/"))]
+    except (OSError, ValueError):
+        unmodelled = []
     never_multi = sorted(s for s in gen_sites if s not in seen_multi)
     wall = time.time() - t0
     new, known = [], []
@@ -597,6 +620,8 @@ def check(pid, tier, seed):
     for v in viols:
         key_sites = v.get("minimal_sites") or v.get("sites") or []
         sig = "C25:" + v["combo"][1] + ":" + ("+".join(key_sites) if key_sites else ("native-order" if v["map"] == "pass" else "unminimised"))
+        if v.get("identical_plan"):
+            sig = "C25:" + v["combo"][1] + ":identical-plan-different-output"
         if v.get("inproc"):
             sig = v["inproc_sig"]
         v["signature"] = sig
@@ -606,7 +631,7 @@ def check(pid, tier, seed):
         safe = "".join(ch if ch.isalnum() else "_" for ch in sig)[:70]
         path = os.path.join(REPLAYS, "C25-%s.json" % safe)
         case = {"property": "C25", "combo": v["combo"], "map": v["map"], "sites": v.get("minimal_sites") or v.get("sites"), "inproc": bool(v.get("inproc")),
-                "seq": v.get("seq"), "modes": v.get("modes")}
+                "seq": v.get("seq"), "modes": v.get("modes"), "identical_plan": bool(v.get("identical_plan"))}
         json.dump({"property": "C25", "seed": seed, "violation": {"property": "C25", "oracle": "output-differs", "signature": sig,
                                                                    "msg": "output file %s differs from the canonical-order reference: %s" % (v["file"], v["detail"])},
                    "case": case, "repo_hash": info["repo_hash"], "how_to_replay": "./verifctl replay %s" % os.path.relpath(path, VERIF)}, open(path, "w"), indent=1)
@@ -632,6 +657,8 @@ def check(pid, tier, seed):
                        "simulated_or_stubbed": ["map iteration order at every `range`-over-map / reflect MapKeys / MapRange site (simrt seam)", "process boundary: every generation is a fresh process, or a chosen position in a seeded sequence of generations inside one process (hgen driver)"]},
         "known_findings_hit": [k["signature"] for k, _, _ in known],
         "exhaustive_single_site_sweep": tier == "thorough",
+        "concurrency_outside_the_simulators_control": {"goroutines_channels_atomics_in_generator_packages": unmodelled[:20], "count": len(unmodelled),
+                                                       "note": "empty on the unchanged tree: map order and process state are then the only schedule; if not empty, only the identical-plan repetitions can notice its effect"},
         "deviations_not_repeated_on_reexecution": {"count": len(unrepro), "first": unrepro[:5]},
     }
     checks.write_evidence(pid, tier, seed, cov, [
@@ -671,6 +698,23 @@ def replay(path, doc):
             print("replay: " + bad[1])
             print("VIOLATION property=C25 replay=%s" % path)
             return 1
+        if case.get("identical_plan"):
+            first = None
+            for i in range(8):
+                od = os.path.join(workdir, "rep%d" % i)
+                rc, got, _, err = generate(info, combo, case["map"], case.get("sites"), od, workdir)
+                if rc != 0:
+                    log("replay: generation failed: " + err)
+                    return 2
+                if first is None:
+                    first, firstdir = got, od
+                elif got != first:
+                    f, detail = first_diff(firstdir, od, first, got)
+                    print("replay: execution %d of the same plan differs from the first: %s %s" % (i + 1, f, detail))
+                    print("VIOLATION property=C25 replay=%s" % path)
+                    return 1
+            print("replay: 8 executions of the plan gave identical output (no violation this time; the cause is not under the simulator's control)")
+            return 0
         refdir = os.path.join(workdir, "ref")
         rc, ref, _, err = generate(info, combo, "canon", None, refdir, workdir)
         if rc != 0:
